@@ -100,11 +100,13 @@ func runHistory(keys *hKeys, hc *HCase) (line, res string, ok bool) {
 			}
 		}
 	}()
+	before := time.Now()
 	ca, err := fixture.New(fixture.Opts{SSH: true, JWKClaims: &provisioner.Claims{EnableSSHCA: bptr(true)},
 		Config: func(cfg *config.Config) { cfg.AuthorityConfig.EnableAdmin = true }})
 	if err != nil {
 		panic(err)
 	}
+	after := time.Now()
 	defer func() { ca.Close() }()
 	ctx := authority.NewContext(context.Background(), ca.Auth)
 	var cur []*managed
@@ -155,10 +157,12 @@ func runHistory(keys *hKeys, hc *HCase) (line, res string, ok bool) {
 				panic(err)
 			}
 		case "restart":
+			before = time.Now()
 			ca2, err := ca.Restart()
 			if err != nil {
 				panic(err)
 			}
+			after = time.Now()
 			ca = ca2
 			ctx = authority.NewContext(context.Background(), ca.Auth)
 		case "remove":
@@ -178,7 +182,8 @@ func runHistory(keys *hKeys, hc *HCase) (line, res string, ok bool) {
 		}
 	}
 	// the configuration the admin calls left behind
-	w := &World{ca: ca, hosts: []string{fixture.DNSName}, ssh: true, start: ca.Auth.GetInfo().StartTime, sshUser: ca.SSHUser, sshHost: ca.SSHHost}
+	w := &World{ca: ca, hosts: []string{fixture.DNSName}, ssh: true, sshUser: ca.SSHUser, sshHost: ca.SSHHost}
+	w.start, _ = verifiedStart(ca.Auth.GetInfo().StartTime, before, after)
 	w.provs = append(w.provs, &Prov{Ty: "jwk", Name: "jwk", Kid: ca.JWK.KeyID, Init: true, SSH: true, jwk: ca.JWK, Configured: true})
 	for _, m := range cur {
 		p := &Prov{Ty: m.ty, Name: m.name, Init: true, SSH: true, Configured: true}
@@ -316,11 +321,16 @@ func historyStage(o *c.Out, n int, replay string) {
 					if json.Unmarshal(js, &hc) == nil && len(hc.Ops) > 0 {
 						emit(&hc)
 					}
+					var sc StartCase
+					if json.Unmarshal(js, &sc) == nil && sc.Mode != "" {
+						startupStage(o, []StartCase{sc})
+					}
 				}
 			}
 		}
 		return
 	}
+	startupStage(o, nil)
 	for _, hc := range historyCorner() {
 		emit(hc)
 	}
